@@ -416,6 +416,8 @@ def main(tier):
     if not cases:
         raise CheckError("DataDef_MC printed no cases")
     replay_cases(rep, bld, cases, tier)
+    from checks import ext_charmap          # phase "charmap": the character translation state machine over histories
+    ext_charmap.run(rep, bld, tier)
     return rep.finish(
         rule="cases = statement kind x argument list (boundary integers of the field, float sweeps around every rounding "
              "boundary, strings, DUP/[n]/? forms) x modes (endianness, PADDING, odd start, CHARSET) enumerated by TLC; "
